@@ -56,13 +56,40 @@ def run(prog, rep, tier, repo):
         st = [s for s in f.stores() if tag(s.target) == 'index']
         rng_ok = False
         idx_ok = False
+        unread = None
         if len(st) == 1:
             i = st[0].target[2]
             r = ix.item_range(i) if tag(i) == 'item' else None
-            rng_ok = r is not None and pconst(r[0]) == 1
-            reads = [z for z in subterms(st[0].value) if tag(z) == 'index']
-            idx_ok = all(z[2] == i for z in reads) and len(reads) == 2
-        if got == want and rng_ok and idx_ok:
+            if r is not None:
+                rng_ok = pconst(r[0]) == 1
+                reads = [z for z in subterms(st[0].value) if tag(z) == 'index']
+                idx_ok = all(z[2] == i for z in reads) and len(reads) == 2
+            elif tag(i) == 'field' and i[2] == 0 and tag(i[1]) == 'item':
+                # for (i, c) in coef.iter().enumerate().skip(s): index i runs from s and c is coef[i]
+                it = i[1][2]
+                skip = 0
+                chain = []
+                while tag(it) == 'call' and short(it[1]) in ('skip', 'enumerate', 'iter', 'into_iter', 'copied', 'cloned') and it[2]:
+                    chain.append(short(it[1]))
+                    if short(it[1]) == 'skip':
+                        skip = it[2][1][2] if tag(it[2][1]) == 'const' else None
+                    it = it[2][0]
+                coef_t = ('arg', 3, f.names.get(3))
+                if it == coef_t and 'enumerate' in chain and skip is not None:
+                    aligned = 'skip' not in chain or chain.index('skip') < chain.index('enumerate')     # outermost first: skip(enumerate(..))
+                    rng_ok = skip == 1
+                    elem_reads = [z for z in subterms(st[0].value) if tag(z) == 'field' and z[1] == i[1] and z[2] == 1]
+                    dreads = [z for z in subterms(st[0].value) if tag(z) == 'index']
+                    idx_ok = aligned and len(elem_reads) >= 1 and all(z[2] == i for z in dreads)
+                else:
+                    unread = 'index source %s' % show(i[1][2])[:60]
+            else:
+                unread = 'index %s' % show(i)[:40]
+        elif len(st) != 1:
+            unread = '%d element stores' % len(st)
+        if unread and got == want:
+            rep.undecided('penalty', key, 'which coefficients are penalised is not read (%s)' % unread, site_of(f.body), proof=False)
+        elif got == want and rng_ok and idx_ok:
             rep.ok('penalty', key, 'dbeta[i] += alpha * coef[i] for i in 1.. (intercept unpenalised)')
             rep.sample('apply_dbeta_penalty: dbeta := %s' % show_expr(got))
         elif got != want:
